@@ -12,6 +12,7 @@ NOTE = ('trusted: z3; go/ssa; the gosym encoder (validated each run by replaying
 CHECKS = {
  'C01': ('model_checking', 'For every byte string of length <= N (quick 7, thorough 10) and Buffer nil / fresh / used-with-arbitrary-contents, Valid equals the RFC 8259 reference verdict; all 256^n inputs are covered by the solver-checked partition of path classes, none sampled.', '6.1'),
  'C02': ('model_checking', 'For every byte string of length <= N, SkipValue succeeds exactly when the reference one-pass RFC 8259 reader does and returns the same end offset (every value followed by every next byte, every truncation).', '6.2'),
+ 'C04': ('proof', 'Per-tier solver obligations over the SSA of internal/fp: (T1) the literal scanner readFloat against the RFC 8259 number grammar and the mantissa/exponent/truncation decomposition on all strings <= N and long-digit templates; (T3) Eisel-Lemire: for every one of the 696 table rows and every 64-bit mantissa, a result returned with ok is the correctly rounded binary64 (linear integer arithmetic, R-ROUND). The exact-float tier, the tier glue and the multi-precision fallback are NOT established (stated in evidence.outside).', '6.4'),
  'C05': ('model_checking', 'All six integer readers on every byte string <= N and on digit templates (optional sign, up to 21 symbolic bytes, look-ahead byte): success iff integer literal in range (decimal-string comparison oracle), exact value (integer-arithmetic encoding with explicit wrap), offset after the last digit.', '6.5'),
  'C06': ('model_checking', 'ReadStringBytes / ReadString / UnescapeStringContent on every byte string <= N and on escape templates (all 65,536 code units, all 2^32 surrogate combinations, escapes next to arbitrary bytes) with arbitrary destination prefix and spare capacity: success, offset and every output byte equal the RFC 8259 reference decoder.', '6.6'),
  'C07': ('model_checking', 'HandleArrayValues / HandleObjectValues with a handler that nondeterministically returns 0 or the exact end per call: success iff well-formed container or null; on success call count, order, value start and raw key bytes match the reference member list and the offset is the container end.', '6.7'),
@@ -25,6 +26,8 @@ CHECKS = {
  'C08': ('model_checking', 'A decoder composed from the public API with a nondeterministic choice of admissible call per token (typed readers, SkipValue, SkipValueFast, nested Handle*Values) finishes at the reference end offset whenever direct decoding succeeds, and its validating variant fails whenever it fails.', '6.8'),
  'C15': ('model_checking', 'Two- and three-call histories on one ValueReader over template documents (successes, syntax errors, depth-limit exits with the limit scaled to 3): each later result equals a fresh reader\'s, earlier results stay equal to their reference value also after the caller mutates later results.', '6.15'),
  'C16': ('model_checking', 'Every entry point leaves its input bytes equal to a snapshot (and no store ever targets an input object); appending functions keep an arbitrary destination prefix for every spare capacity; results do not depend on dirty scratch contents; returned strings/trees equal their reference value after inputs and buffers are overwritten.', '6.16'),
+ 'C18': ('other', 'Footprint lemma, not schedule exploration: static taint analysis over the SSA shows no write to memory reachable from a package-level variable outside init, and symbolic runs of every entry point raise no global-write event; race freedom for calls sharing read-only inputs then follows from DRF-SC (cited). A reported breach is confirmed with a goroutine battery under -race before it is printed.', '6.18'),
+ 'C19': ('model_checking', 'With a Buffer warmed by the same call on the same document (and optionally used on another, possibly failing, input in between), destination capacity >= input length and a non-allocating handler, no success path of the listed functions reaches an allocation site (sites per the compiler escape analysis + append growth + map/fmt), for every input <= N and escape/nesting/long-number templates; the float conversion closure contains no allocation site (SSA scan).', '6.19'),
  'C17': ('model_checking', 'StdLibCompatibleString / StdLibCompatibleStringBytes on every byte string <= N (every 1-4 byte sequence class) equal the RFC 3629 sanitiser; idempotent; destination prefix kept.', '6.17'),
 }
 
